@@ -9,7 +9,7 @@ def copyCreate : List (String × String × List String) := [("AtomArray", "AtomA
 /-- attributes re-assigned by `AtomArrayStack.__delitem__` -/
 def delModelFields : List String := ["_coord", "_box"]
 /-- attributes re-assigned by `_AtomArrayBase._del_element` -/
-def delAtomFields : List String := ["_coord", "_array_length", "_annot"]
+def delAtomFields : List String := ["_coord", "_array_length", "_annot", "_bonds"]
 /-- attributes of the new object assigned by `_subarray` -/
 def subarrayFields : List String := ["_coord", "_bonds", "_box", "_annot"]
 /-- mandatory annotation categories created by `__init__` -/
